@@ -88,7 +88,8 @@ def make_scheduler(name, mode, seed, cs_kind="mixed", max_t=27, extra=None):
         from syne_tune.optimizer.schedulers.hyperband import HyperbandScheduler
         return HyperbandScheduler(cs, searcher="dyhpo", type="dyhpo", metric=METRIC, mode=mode, resource_attr=RES,
                                   max_resource_attr=MAXATTR, grace_period=1, rung_increment=extra.get("rung_increment", 2),
-                                  random_seed=seed, search_options={"debug_log": False, "num_init_random": extra.get("num_init_random", 10 ** 6)},
+                                  random_seed=seed, search_options=dict({"debug_log": False, "num_init_random": extra.get("num_init_random", 10 ** 6)},
+                                                                        **(extra.get("search_options") or {})),
                                   rung_system_kwargs={"probability_sh": extra.get("probability_sh", 0.5)})
     if name.startswith("hb-"):
         from syne_tune.optimizer.schedulers.hyperband import HyperbandScheduler
